@@ -158,6 +158,9 @@ type Case struct {
 	Trust string `json:"trust,omitempty"`
 	// Noise: SP options that concern only what it sends (spkit.Noise)
 	Noise uint64 `json:"noise,omitempty"`
+	// ArtMeta (artifact kind): what the IdP metadata says about artifact resolution: "" = a SOAP service | no-service |
+	// other-binding | empty-location | hostile-location
+	ArtMeta string `json:"art_meta,omitempty"`
 	// SPKey: what key material the SP holds (see curSPKey); inbound kinds only
 	SPKey string `json:"sp_key,omitempty"`
 
@@ -311,6 +314,8 @@ func newSP() *saml.ServiceProvider {
 	}
 	return sp
 }
+
+var artMetas = []string{"", "", "", "no-service", "other-binding", "empty-location", "hostile-location"}
 
 var spKeys = []string{"nokey", "nocert", "neither", "ec"}
 
@@ -683,12 +688,42 @@ func checkMetadata(c Case) pbt.Result {
 	}
 	removed := removeParts(el, c.MetaRemovals)
 	doc := forge.Bytes(el)
-	if c.Framing == "entities" {
+	if strings.HasPrefix(c.Framing, "entities") {
+		// aggregates: the entity alone one or two levels deep, beside entities acting in other roles only (an
+		// IdP-only entity where an SP is looked for and vice versa, an entity without any role), those others
+		// alone, or nothing at all
 		wrap := etree.NewElement("md:EntitiesDescriptor")
 		wrap.CreateAttr("xmlns:md", "urn:oasis:names:tc:SAML:2.0:metadata")
 		wrap.CreateAttr("cacheDuration", "PT1H")
-		inner := wrap.CreateElement("md:EntitiesDescriptor")
-		inner.AddChild(el)
+		other := func() *etree.Element {
+			if c.API == "put-service" {
+				return maximalIDPMetadata()
+			}
+			return maximalSPMetadata("https://another-sp.example.org/metadata", "https://another-sp.example.org/acs")
+		}
+		roleless := func() *etree.Element {
+			e := etree.NewElement("md:EntityDescriptor")
+			e.CreateAttr("xmlns:md", "urn:oasis:names:tc:SAML:2.0:metadata")
+			e.CreateAttr("entityID", "https://no-role.example.org/metadata")
+			return e
+		}
+		switch c.Framing {
+		case "entities":
+			wrap.CreateElement("md:EntitiesDescriptor").AddChild(el)
+		case "entities-flat":
+			wrap.AddChild(el)
+		case "entities-with-others":
+			wrap.AddChild(other())
+			wrap.AddChild(roleless())
+			wrap.AddChild(el)
+		case "entities-others-only":
+			wrap.AddChild(other())
+			wrap.AddChild(roleless())
+		case "entities-others-nested":
+			wrap.CreateElement("md:EntitiesDescriptor").AddChild(other())
+		case "entities-empty":
+		}
+		res.Classes = append(res.Classes, "metadata:"+c.Framing)
 		doc = forge.Bytes(wrap)
 	}
 	r := feed(c.API, doc, "raw")
@@ -1029,6 +1064,22 @@ func checkArtifact(c Case) pbt.Result {
 	for i, fault := range c.Faults {
 		res.Classes = append(res.Classes, "fault:"+fault)
 		sp := newSP()
+		if c.ArtMeta != "" {
+			res.Classes = append(res.Classes, "artifact-service:"+c.ArtMeta)
+			for di := range sp.IDPMetadata.IDPSSODescriptors {
+				d := &sp.IDPMetadata.IDPSSODescriptors[di]
+				switch c.ArtMeta {
+				case "no-service":
+					d.ArtifactResolutionServices = nil
+				case "other-binding":
+					d.ArtifactResolutionServices = []saml.Endpoint{{Binding: saml.HTTPPostBinding, Location: spkit.IDPArtifact}}
+				case "empty-location":
+					d.ArtifactResolutionServices = []saml.Endpoint{{Binding: saml.SOAPBinding, Location: ""}}
+				case "hostile-location":
+					d.ArtifactResolutionServices = []saml.Endpoint{{Binding: saml.SOAPBinding, Location: "%zz://\x7f not a url"}}
+				}
+			}
+		}
 		good := func(issued string) []byte {
 			r := spkit.Baseline(fix.Epoch, "id-req", "")
 			r.Assertions[0].Sign = &forge.SignSpec{Key: "idp"}
@@ -1131,7 +1182,7 @@ func checkArtifact(c Case) pbt.Result {
 				return ok200(good(issued))
 			}
 		})
-		if fault == "good" && !o.Accepted() && idpTrusted() && curSPKey == "" {
+		if fault == "good" && !o.Accepted() && idpTrusted() && curSPKey == "" && c.ArtMeta == "" {
 			res.Err = fmt.Sprintf("harness sanity: a correct artifact response was rejected: %s", o.Describe())
 			return res
 		}
@@ -1394,7 +1445,7 @@ func gen1(t *rapid.T) Case {
 		name := rapid.SampledFrom(fixtureNames).Draw(t, "fixture")
 		return Case{Kind: "fixture", Fixture: name, API: rapid.SampledFrom(fixtureAPIs[name]).Draw(t, "api"), Ops: genMutOps(t)}
 	case 10:
-		return Case{Kind: "artifact", Faults: rapid.SliceOfN(rapid.SampledFrom(faults), 1, 5).Draw(t, "faults"), Trust: genTrust(t)}
+		return Case{Kind: "artifact", Faults: rapid.SliceOfN(rapid.SampledFrom(faults), 1, 5).Draw(t, "faults"), Trust: genTrust(t), ArtMeta: rapid.SampledFrom(artMetas).Draw(t, "artmeta")}
 	case 11, 12:
 		return Case{Kind: "idp", Method: rapid.SampledFrom([]string{"GET", "POST", "initiated"}).Draw(t, "method"), NoSession: rapid.IntRange(0, 4).Draw(t, "nosess") == 0,
 			ReqRemovals: genRemovals(t, "reqrm", nParts.req), MetaRemovals: genRemovals(t, "metarm", nParts.spmeta)}
@@ -1405,8 +1456,8 @@ func gen1(t *rapid.T) Case {
 			n = nParts.spmeta
 		}
 		c := Case{Kind: "metadata", API: api, MetaRemovals: genRemovals(t, "metarm", n)}
-		if api == "unmarshal-entities" || (api == "metadata" && rapid.Bool().Draw(t, "entities")) {
-			c.Framing = "entities"
+		if api == "unmarshal-entities" || (api != "unmarshal-entity" && rapid.Bool().Draw(t, "entities")) {
+			c.Framing = rapid.SampledFrom(aggregateFramings).Draw(t, "aggregate")
 		}
 		return c
 	}
@@ -1536,6 +1587,8 @@ func enumIDP(tier string, emit func(Case)) {
 	}
 }
 
+var aggregateFramings = []string{"entities", "entities-flat", "entities-with-others", "entities-others-only", "entities-others-nested", "entities-empty"}
+
 func enumMetadata(_ string, emit func(Case)) {
 	for _, api := range []string{"metadata", "unmarshal-entity", "put-service"} {
 		n := nParts.idpmeta
@@ -1549,6 +1602,14 @@ func enumMetadata(_ string, emit func(Case)) {
 	for i := 0; i < nParts.idpmeta; i++ {
 		emit(Case{Kind: "metadata", API: "unmarshal-entities", Framing: "entities", MetaRemovals: []int{i}})
 		emit(Case{Kind: "metadata", API: "metadata", Framing: "entities", MetaRemovals: []int{i}})
+	}
+	for _, api := range []string{"metadata", "unmarshal-entities", "put-service"} {
+		for _, fr := range aggregateFramings {
+			emit(Case{Kind: "metadata", API: api, Framing: fr})
+			for _, i := range []int{0, 1, 2, 3, 5, 8} {
+				emit(Case{Kind: "metadata", API: api, Framing: fr, MetaRemovals: []int{i}})
+			}
+		}
 	}
 }
 
@@ -1576,6 +1637,11 @@ func enumDegenerate(_ string, emit func(Case)) {
 	}
 	for _, f := range faults {
 		emit(Case{Kind: "artifact", Faults: []string{f}})
+	}
+	for _, am := range artMetas[3:] {
+		for _, f := range []string{"good", "dial-error", "garbage", "context-cancelled"} {
+			emit(Case{Kind: "artifact", Faults: []string{f}, ArtMeta: am})
+		}
 	}
 	for _, api := range []string{"logout-redirect", "logout-request", "authn-get"} {
 		for _, mib := range []int{1, 9, 10, 11, 16, 64} {
